@@ -9,11 +9,11 @@ def run(tier):
     r = tlc.run("Slab.tla", "SlabCull_quick.cfg" if quick else "SlabCull_thorough.cfg", workers=12, timeout=3000, heap="16g")
     c.add_tlc(r, "straight trenches: no member of the exact planar construction is discarded by the transcribed pre-filter (depth cut-off, bounding box + buffer)")
     beh = list(dict.fromkeys(r.behaviours))
-    if quick: beh = beh[::3]
+    if quick: beh = [b for b in beh if replay.pick(b, 3, c.seed)]
     r2 = tlc.run("Culling.tla", "Culling.cfg", workers=8, timeout=1200, heap="12g")
     c.add_tlc(r2, "curved / spherical / dateline trenches and variable depth surfaces (differential only)")
     b2 = list(dict.fromkeys(r2.behaviours))
-    if quick: b2 = [b for i, b in enumerate(b2) if i % 2 == 0 or '"depth-surfaces"' in b[:300]]
+    if quick: b2 = [b for b in b2 if replay.pick(b, 2, c.seed) or '"depth-surfaces"' in b[:300]]
     b3 = gen.behaviours(c, tier, "culling")      # documents of the world-file grammar
     res = replay.replay(exe, beh + b2 + b3, shards=16, timeout_s=300)
     c.add_replay(res, "every query answered twice: shortcuts as built vs neutralised (GWB_VERIF hook), bitwise")
